@@ -241,9 +241,13 @@ impl Array {
             None
         } else {
             Some(Rc::new(move |c, t, x| {
+                // the dot product of two vectors scales each vector by the delta for the other
+                let is_dot_product = c[0].dimensions.len() < 2 && c[1].dimensions.len() < 2;
                 vec![
                     if t[0] {
-                        Some(if a_transpose {
+                        Some(if is_dot_product {
+                            &c[1] * x
+                        } else if a_transpose {
                             Array::matmul((&c[1], b_transpose), (x, true), None)
                         } else {
                             Array::matmul((x, false), (&c[1], !b_transpose), None)
@@ -252,7 +256,9 @@ impl Array {
                         None
                     },
                     if t[1] {
-                        Some(if b_transpose {
+                        Some(if is_dot_product {
+                            &c[0] * x
+                        } else if b_transpose {
                             Array::matmul((x, true), (&c[0], a_transpose), None)
                         } else {
                             Array::matmul((&c[0], !a_transpose), (x, false), None)
